@@ -8,18 +8,23 @@
 (*           table, one line whose metric name is `name` was sent through,   *)
 (*           obs = what was observed (deliveries per destination / route,    *)
 (*           lines produced by the aggregator)                               *)
-(*  hist   : a fresh caching aggregator with filter f, wait w                *)
+(*  hist   : a fresh caching aggregator with filter f, output template t,    *)
+(*           wait w, drop-raw on/off                                         *)
 (*  clock  : the injected clock now shows t                                  *)
-(*  lookup : name offered to the aggregator at timestamp ts; got = whether   *)
-(*           it consumed it (drop-raw return value)                          *)
-(*  tick   : flush + cache clean-up at time t; out = <<quantum, count>> of   *)
-(*           every line the aggregator produced                              *)
+(*  lookup : name offered to the aggregator (AddMaybe) at timestamp ts;      *)
+(*           got = its return value (the point is consumed: drop-raw is on   *)
+(*           and the filter accepts the name)                                *)
+(*  tick   : flush + cache clean-up at time t; out = [k |-> output name,     *)
+(*           q |-> quantum, c |-> count] of every line the aggregator        *)
+(*           produced: every accepted point is counted, under the output     *)
+(*           name the template gives for its name, whatever was looked up    *)
+(*           before                                                          *)
 EXTENDS AggCacheOps, Json, TLC, TLCExt, IOUtils
 
 TLog == ndJsonDeserialize("trace.ndjson")
 
-VARIABLES l, tf, tcache, tnow, twait, pend
-tvars == <<l, tf, tcache, tnow, twait, pend>>
+VARIABLES l, tf, tt, tdrop, tcache, tnow, twait, pend
+tvars == <<l, tf, tt, tdrop, tcache, tnow, twait, pend>>
 
 ASSUME TLCSet(1, 0)
 
@@ -40,31 +45,35 @@ Expected(site, acc) ==
     [] site = "aggdest_all"   -> <<B(acc), 1>>
     [] site = "aggdest_first" -> <<B(acc), B(~acc)>>
 
-TInit == l = 1 /\ tf = NoFilter /\ tcache = <<>> /\ tnow = 0 /\ twait = 1 /\ pend = <<>>
+TInit == l = 1 /\ tf = NoFilter /\ tt = <<>> /\ tdrop = TRUE /\ tcache = <<>> /\ tnow = 0 /\ twait = 1 /\ pend = <<>>
 
 TSite == /\ Is("site")
          /\ Ev.obs = Expected(Ev.site, Accept(Ev.f, Ev.name))
-         /\ UNCHANGED <<tf, tcache, tnow, twait, pend>>
-THist == Is("hist") /\ tf' = Ev.f /\ twait' = Ev.wait /\ tcache' = <<>> /\ tnow' = 0 /\ pend' = <<>>
-TClock == Is("clock") /\ Ev.t >= tnow /\ tnow' = Ev.t /\ UNCHANGED <<tf, tcache, twait, pend>>
+         /\ UNCHANGED <<tf, tt, tdrop, tcache, tnow, twait, pend>>
+THist == /\ Is("hist") /\ tf' = Ev.f /\ tt' = Ev.t /\ tdrop' = Ev.drop /\ twait' = Ev.wait
+         /\ tcache' = <<>> /\ tnow' = 0 /\ pend' = <<>>
+TClock == Is("clock") /\ Ev.t >= tnow /\ tnow' = Ev.t /\ UNCHANGED <<tf, tt, tdrop, tcache, twait, pend>>
+\* pend: <<output name, quantum>> -> number of accepted points not yet flushed
 TLookup == /\ Is("lookup")
-           /\ Ev.got = Answer(tf, tcache, Ev.name, "none")
-           /\ tcache' = Remember(tf, tcache, Ev.name, tnow, "none")
-           /\ pend' = IF Ev.got
-                      THEN [q \in DOMAIN pend \cup {Ev.ts} |-> (IF q \in DOMAIN pend THEN pend[q] ELSE 0) + (IF q = Ev.ts THEN 1 ELSE 0)]
-                      ELSE pend
-           /\ UNCHANGED <<tf, tnow, twait>>
+           /\ LET a == Answer(tf, tt, tcache, Ev.name, "none")
+                  kq == <<a.key, Ev.ts>>
+              IN /\ Ev.got = (tdrop /\ a.m)
+                 /\ pend' = IF a.m
+                            THEN [x \in DOMAIN pend \cup {kq} |-> (IF x \in DOMAIN pend THEN pend[x] ELSE 0) + (IF x = kq THEN 1 ELSE 0)]
+                            ELSE pend
+           /\ tcache' = Remember(tf, tt, tcache, Ev.name, tnow, "none")
+           /\ UNCHANGED <<tf, tt, tdrop, tnow, twait>>
 TTick == /\ Is("tick")
-         /\ {<<o[1], o[2]>> : o \in Range(Ev.out)} = {<<q, pend[q]>> : q \in DOMAIN pend}
+         /\ {<<o.k, o.q, o.c>> : o \in Range(Ev.out)} = {<<x[1], x[2], pend[x]>> : x \in DOMAIN pend}
          /\ Len(Ev.out) = Cardinality(DOMAIN pend)
          /\ pend' = <<>>
          /\ tcache' \in Cleaned(tcache, Ev.t, twait)
-         /\ UNCHANGED <<tf, tnow, twait>>
+         /\ UNCHANGED <<tf, tt, tdrop, tnow, twait>>
 
 TNext == TSite \/ THist \/ TClock \/ TLookup \/ TTick
 TSpec == TInit /\ [][TNext]_tvars
 
 HighWater == TLCSet(1, IF l - 1 > TLCGet(1) THEN l - 1 ELSE TLCGet(1))
 Post == PrintT("@@TRACE " \o ToJson([matched |-> TLCGet(1)]))
-TFresh == Fresh(tf, tcache)
+TFresh == Fresh(tf, tt, tcache)
 =============================================================================
